@@ -342,7 +342,7 @@ func (e *Engine) zero(t types.Type) Value {
 		if u.Kind() == types.UnsafePointer {
 			return &PtrV{}
 		}
-		if u.Kind() == types.UntypedNil {
+		if u.Kind() == types.UntypedNil || u.Kind() == types.Invalid {
 			return nil
 		}
 		w, _, ok := e.width(t)
